@@ -11,7 +11,7 @@ EXPLANATION = (
     "[SIGN-AGREE] the encoder's two's-complement wrap is the inverse of the decoder's sign extension. [ROUND] every scaled-float "
     "to tick conversion goes through round (or divides by an integer resolution). [ABSENT-ENC] each producer has a non-raising path "
     "for an absent value. [LOOKUP-INV] lookup_dict_encode_* is the inverse of master_dict[*] where names are unique. "
-    "This decides the structural necessary conditions only; UNDECIDED: exactness of round(n*r/r)==n for every n < 2^48 and every "
+    "This decides the structural necessary conditions only; The encode_number residual is evaluated as an exact piecewise-affine function of the tick count (piece.py): interval returned, raise type outside it, wrap constant for negative values -- any spelling of the range test and of the two's-complement step. UNDECIDED: exactness of round(n*r/r)==n for every n < 2^48 and every "
     "resolution, the double-rounding clause for 64-bit fields (numeric facts, not shape facts)."
 )
 ASSUMPTIONS = ["CPython ast parser", "canboat.json is the oracle", "sym.py partial evaluation (constant folding, helper inlining)",
